@@ -26,7 +26,15 @@ import YaegiVerif.Model.Unwind
                                                                  still the deferring frame); the extractor checks newCallFrame's shape
      32d4f06          (no fact changes)                          genFunctionWrapper: receivers of interface-method wrappers bound at each call
      4a41b28          (no fact changes)                          Execute defers a second function refreshing the root frame's run id
-   Fingerprints changed by these: `getFunc` (d26dd9e, 4a41b28), `genFunctionWrapper` (32d4f06, 4a41b28), `Interpreter.Execute`
+     dc95f3e          (no fact changes)                          epochs: newCallFrame(interp, anc, length, e) builds `&frame{anc: anc, …}` itself
+                                                                 (id / done / epoch from the interpreter; the extractor checks `anc: anc` and reads
+                                                                 the call sites at the position of `anc`); getFunc: newCallFrame(n.interp, fr, …,
+                                                                 fr.getEpoch()) — still the clone; genFunctionWrapper: newCallFrame(n.interp, f, …, e)
+                                                                 — still the deferring frame; newFrame / frame.clone carry `epoch`; Execute brackets
+                                                                 the run with `defer interp.end(interp.begin())` instead of the deferred run-id
+                                                                 refresh (the deferred recover building Panic{Value: r} is untouched)
+   Fingerprints changed by dc95f3e: `genFunctionWrapper`, `getFunc`, `Interpreter.Execute`, `newFrame`, `newCallFrame`, `frame.clone`.
+   Fingerprints changed by d26dd9e … 4a41b28: `getFunc` (d26dd9e, 4a41b28), `genFunctionWrapper` (32d4f06, 4a41b28), `Interpreter.Execute`
    (4a41b28); `newCallFrame` is a new row.
    Fingerprints changed by 8600fa9 / eef6ac5 / 3081633: `runDeferred` (8600fa9), `call: defer branch`, `callBin: defer clause` (eef6ac5),
    `genFunctionWrapper` (3081633); `callVariadic` and `deferCallSlice` are new rows.
@@ -71,16 +79,16 @@ def sourceHashes : List (String × String) :=
   [("_recover", "8cc0949f8735f125"),
    ("_panic", "479ec3cbe4f915a7"),
    ("genBuiltinDeferWrapper", "a752ad4945ff5fce"),
-   ("genFunctionWrapper", "033ce6ccd17871ac"),
+   ("genFunctionWrapper", "4feabaa50796f8ae"),
    ("copyDeferArg", "d8586ba1ea695e54"),
    ("runDeferred", "3744dc350d781dfc"),
    ("callVariadic", "a136ff7434f20d7e"),
    ("deferCallSlice", "8195ae3a302030b3"),
-   ("getFunc", "767f1bf470b0d0fd"),
-   ("Interpreter.Execute", "19fb5462ea693d28"),
-   ("newFrame", "da1db819d5067f56"),
-   ("newCallFrame", "43aa5e7f13021a5b"),
-   ("frame.clone", "ccd71f62c6588b0a"),
+   ("getFunc", "b1cec79847c23ec5"),
+   ("Interpreter.Execute", "c568aa6d3c471274"),
+   ("newFrame", "8d3a53ebf9cf8afa"),
+   ("newCallFrame", "40f1e0d7f7a1dce0"),
+   ("frame.clone", "288c927fcf00073e"),
    ("runCfg: deferred function", "61a77e83b081a972"),
    ("call: defer branch", "e4bca2242cb1b6ba"),
    ("callBin: defer clause", "4756311ea624d773")]
